@@ -150,6 +150,12 @@ def _make_empty_cog(
         kw=kw,
     )
     _compression = enumarg(COMPRESSION, compression.upper())
+    # An uncompressed page made of a single tile is stored "contiguously" by tifffile: it drains the
+    # tile iterator and insists on the real pixel bytes, so the header template can not be written
+    # that way (endless iterator: never returns). Use a placeholder codec, fix the tag afterwards.
+    _hdr_compression = _compression
+    if _compression == COMPRESSION.NONE:
+        _hdr_compression = COMPRESSION.ADOBE_DEFLATE
 
     if isinstance(blocksize, int):
         blocksize = [blocksize]
@@ -175,7 +181,7 @@ def _make_empty_cog(
         "photometric": photometric,
         "planarconfig": planarconfig,
         "predictor": predictor,
-        "compression": _compression,
+        "compression": _hdr_compression,
         "compressionargs": compressionargs,
         "software": False,
         **kw,
@@ -242,6 +248,14 @@ def _make_empty_cog(
     meta.overviews = tuple(metas[1:])
 
     tw.close()
+
+    if _hdr_compression != _compression:
+        from tifffile import TiffFile
+
+        buf.seek(0)
+        with TiffFile(buf, mode="r+", name=":mem:") as tr:
+            for page in tr.pages:
+                page.tags[259].overwrite(int(_compression))
 
     return meta, buf.getbuffer()
 
